@@ -37,6 +37,61 @@ def counter_phase(rep, exe_impl, exe_model):
     return False, len(cases), len(cases)
 
 
+def grow_phase(rep, exe_impl, exe_model):
+    """implementation only (the model has no concurrent writer): another process appends to the history file while its
+    new slice is being copied, after the size was taken; whatever lands in the version, the position remembered
+    afterwards is what was copied - the next slice starts exactly there"""
+    rng = random.Random(rep.seed + 18)
+    H = wc.WATCH + "/hist.log"
+    cases = []
+    sf = None
+    for i in range(16 if rep.tier == "quick" else 200):
+        s = wc.Script()
+        wc.setup_world(s, wc.base_cfg(deb=0))
+        first = "".join(rng.choice("ab\n") for _ in range(rng.choice([0, 6, 20])))
+        s.put(H, first)
+        s.start()
+        if first:
+            s.write(7, H)
+            s.timeout()
+        s.append(H, "b" * rng.choice([1, 10, 37]))
+        s.tick(1)
+        s.write(7, H)
+        s.dump()
+        if sf is None:
+            steps, res = wk.count_calls(exe_impl, s.text().split("\n") + ["timeout"])
+            names = res[-1][1] if res else []
+            sf = [k for k, c in enumerate(names) if c.startswith("sendfile")]
+            if not sf:
+                return False, 0, 0
+        s.oracle("grow", sf[0], rng.choice([1, 5, 64]))
+        s.timeout()
+        s.dump()
+        s.append(H, "d" * rng.choice([0, 1, 8]))
+        s.tick(1)
+        s.write(7, H)
+        s.timeout()
+        s.dump()
+        if rng.random() < 0.5:
+            s.restart()
+            s.append(H, "e" * 3)
+            s.tick(1)
+            s.write(7, H)
+            s.timeout()
+            s.dump()
+        cases.append(("g%d" % i, s.text(), {}))
+    f, v = wk.run_cases(rep, exe_impl, None, cases, ["history", "position_not_ahead", "fault_reported"], what="growing source")
+    return f, v, len(cases)
+
+
+def extra_phases(rep, exe_impl, exe_model):
+    f1, v1, t1 = counter_phase(rep, exe_impl, exe_model)
+    if f1:
+        return f1, v1, t1
+    f2, v2, t2 = grow_phase(rep, exe_impl, exe_model)
+    return f2, v1 + v2, t1 + t2
+
+
 def main(rep):
     rng = random.Random(rep.seed)
     n = 200 if rep.tier == "quick" else 4000
@@ -44,11 +99,11 @@ def main(rep):
     for i in range(n):
         t, m = wc.gen_history_case(rng)
         cases.append(("h%d" % i, t, m))
-    wk.standard_main(rep, cases=cases, monitors=MON, fault=True, only=HIST, known=known, extra=counter_phase,
+    wk.standard_main(rep, cases=cases, monitors=MON, fault=True, only=HIST, known=known, extra=extra_phases,
                      fault_monitors=["history", "position_kept", "position_not_ahead", "store_immutable", "fault_reported", "no_error"],
                      rule=("the position file round-trips every value (boundaries of digit counts up to 2^64-1); append-only histories: appends of {0,1,10,60} bytes, passes, clock steps, restarts; after every pass the versions (ordered by "
                            "version and collision index) must concatenate to the file up to the remembered position; plus every single fault in the copy and "
-                           "the position update of the two history scenarios, followed by restart and drain"))
+                           "the position update of the two history scenarios, followed by restart and drain; plus, implementation only, a concurrent append to the history file while its slice is being copied (`oracle grow`)"))
 
 
 def replay(rep, path):
